@@ -34,6 +34,33 @@ def background_flag_test(ctx, rule):
         ctx.inst(rule, 'is_background', ok, 'is_background = %s; must test flag bit 0x0008 of self.flags' % show(t), ib.span, key=ib.name + '|%s' % rule)
 
 
+def link_resolution(ctx, rule):
+    """a linked cel is drawn by one recursive write_cel on framedata.cel(CelId{linked frame, own layer}): offset, opacity and content
+    all come from the target (seeds C06-?, C02-o, C17-o drew the target's pixels with the linking chunk's own header)"""
+    # ---------- link resolution
+    wc = ctx.anchor(AF + 'write_cel')
+    if wc is not None:
+        celp = render.param_named(wc, ty_contains='cel::RawCel')
+        rec = [c for c in q.calls(wc, AF + 'write_cel')]
+        ctx.floor('recursive write_cel calls', len(rec), 1)
+        ctx.inst(rule, 'write_cel#linked-by-recursion', len(rec) == 1, 'a linked cel is drawn by %d recursive write_cel call(s) on the link target; must be exactly one '
+                 '(drawing the target\'s content with the linking cel\'s own offset/opacity is not "renders exactly like the cel it links to")' % len(rec),
+                 wc.span, key=wc.name + '|%s|by-recursion' % rule)
+        for c in rec:
+            at = q.arg_terms(c)
+            tgt = at[2]
+            ok = tgt[0] == 'call' and tgt[1] == 'asefile::cel::CelsData::cel' and is_param_path(tgt[2][0], 1, ['framedata'])
+            if ok:
+                cid = tgt[2][1]
+                f = dict(cid[3]) if cid[0] == 'agg' else {}
+                fr, ly = f.get('frame'), f.get('layer')
+                ok = fr is not None and fr[0] == 'field' and fr[2] == '0' and fr[1][0] == 'variant' and fr[1][2] == 'Linked' and is_param_path(fr[1][1], celp, ['content']) \
+                    and is_param_path(ly, celp, ['data', 'layer_index'])
+            ok = ok and is_param(at[0], 1) and is_param(at[1], 2)
+            ctx.inst(rule, 'write_cel#linked', ok, 'linked cel draws %s; must be framedata.cel(CelId{frame: linked frame, layer: this cel\'s layer}) on '
+                     'the same image' % show(tgt)[:140], c.span, key=wc.name + '|%s|target' % rule)
+
+
 def run(ctx):
     fx = ctx.fx
     spec = SP.load_spec()
@@ -330,28 +357,7 @@ def run(ctx):
             ok = at[1][0] == 'call' and at[1][1] == 'asefile::parse::parse_pixel_format'
             ctx.inst('B', 'validate(pixel_format)', ok, 'ParseInfo::validate receives %s' % show(at[1])[:80], c.span, key=ra.name + '|B|validate-pf')
 
-    # ---------- link resolution
-    wc = ctx.anchor(AF + 'write_cel')
-    if wc is not None:
-        celp = render.param_named(wc, ty_contains='cel::RawCel')
-        rec = [c for c in q.calls(wc, AF + 'write_cel')]
-        ctx.floor('recursive write_cel calls', len(rec), 1)
-        ctx.inst('N', 'write_cel#linked-by-recursion', len(rec) == 1, 'a linked cel is drawn by %d recursive write_cel call(s) on the link target; must be exactly one '
-                 '(drawing the target\'s content with the linking cel\'s own offset/opacity is not "renders exactly like the cel it links to")' % len(rec),
-                 wc.span, key=wc.name + '|N|by-recursion')
-        for c in rec:
-            at = q.arg_terms(c)
-            tgt = at[2]
-            ok = tgt[0] == 'call' and tgt[1] == 'asefile::cel::CelsData::cel' and is_param_path(tgt[2][0], 1, ['framedata'])
-            if ok:
-                cid = tgt[2][1]
-                f = dict(cid[3]) if cid[0] == 'agg' else {}
-                fr, ly = f.get('frame'), f.get('layer')
-                ok = fr is not None and fr[0] == 'field' and fr[2] == '0' and fr[1][0] == 'variant' and fr[1][2] == 'Linked' and is_param_path(fr[1][1], celp, ['content']) \
-                    and is_param_path(ly, celp, ['data', 'layer_index'])
-            ok = ok and is_param(at[0], 1) and is_param(at[1], 2)
-            ctx.inst('N', 'write_cel#linked', ok, 'linked cel draws %s; must be framedata.cel(CelId{frame: linked frame, layer: this cel\'s layer}) on '
-                     'the same image' % show(tgt)[:140], c.span, key=wc.name + '|N|target')
+    link_resolution(ctx, 'N')
     if rv is not None:
         for c in q.calls(rv):
             if c.callee in ('std::ops::Fn::call',):
@@ -444,6 +450,7 @@ def run(ctx):
     _c17.normal_divisions(ctx, 'K5')          # Cel::image blends every pixel onto a transparent canvas through normal() (seed C06-l)
     import C11 as _c11d
     import rule as _Rv
+    _c11d.precedence(ctx, rule='V')          # .. and which chunk's palette that is: the new chunk always, an old one only before it (seed C06-p)
     _c11d.decoders(_Rv.View(ctx, {'L1': 'L1/L2', 'P1': 'V', 'P2': 'V', 'P3': 'V'}))     # indexed pixels become the colour the palette chunks give that index (seed C06-m)
     render.layer_image_unconditional(ctx, rule='N')
     # Cel::image is the shared routine's image for (file, cel id), handed on untouched: no fast path of its own (seed C06-i)
